@@ -89,7 +89,7 @@ void d2exp(const double * in, double * out)
     }
   sp.insert(N - 1, N * N - 1) = in[D + 1];
   sp.insert(I0, N * (I0) + N - 1) = in[D + 2];
-  if (I0 > 0) sp.insert(0, 0) = in[D + 1];
+  if (I0 > 0) sp.insert(0, N * I0 + I0) = in[D + 1];  // stored entry ABOVE the block inside a block column
   sp.makeCompressed();
   std::vector<int> o0, i0v;
   snapshot(sp, o0, i0v);
